@@ -1276,15 +1276,18 @@ def create_junctions(net, nr_junctions, pn_bar, tfluid_k, height_m=0, name=None,
     index = _get_multiple_index_with_check(net, "junction", index, nr_junctions)
     entries = {"pn_bar": pn_bar, "type": type, "tfluid_k": tfluid_k, "height_m": height_m, "in_service": in_service,
                "name": name}
+    new_geodata = None
+    if geodata is not None:
+        # works with a 2-tuple or a matching array; built before anything is written, so that malformed
+        # geodata is rejected without leaving the new junctions behind
+        new_geodata = pd.DataFrame(np.zeros((len(index), len(net.junction_geodata.columns)), dtype=int),
+                                   index=index, columns=net.junction_geodata.columns)
+        new_geodata.loc[index, :] = np.nan
+        new_geodata.loc[index, ["x", "y"]] = geodata
     _set_multiple_entries(net, "junction", index, **entries, **kwargs)
 
-    if geodata is not None:
-        # works with a 2-tuple or a matching array
-        net.junction_geodata = pd.concat([net.junction_geodata, pd.DataFrame(
-            np.zeros((len(index), len(net.junction_geodata.columns)), dtype=int), index=index,
-            columns=net.junction_geodata.columns)])
-        net.junction_geodata.loc[index, :] = np.nan
-        net.junction_geodata.loc[index, ["x", "y"]] = geodata
+    if new_geodata is not None:
+        net.junction_geodata = pd.concat([net.junction_geodata, new_geodata])
 
     return index
 
@@ -1532,10 +1535,11 @@ def create_pipes(net, from_junctions, to_junctions, std_type, length_km,
                "outer_diameter_mm": pipe_parameters["outer_diameter_mm"], "k_mm": pipe_parameters["k_mm"],
                "loss_coefficient": loss_coefficient, "u_w_per_m2k": pipe_parameters['u_w_per_m2k'],
                "sections": sections, "in_service": in_service, "type": type, "text_k": text_k}
+    new_geodata = _branch_geodata_frame(net, "pipe", geodata, index) if geodata is not None else None
     _set_multiple_entries(net, "pipe", index, **entries, **kwargs)
 
-    if geodata is not None:
-        _add_multiple_branch_geodata(net, "pipe", geodata, index)
+    if new_geodata is not None:
+        _append_branch_geodata(net, "pipe", new_geodata)
     return index
 
 @deprecated_input(input_handler=input_handler_pipe)
@@ -1631,10 +1635,11 @@ def create_pipes_from_parameters(net, from_junctions, to_junctions, length_km,
         raise UserWarning('you have defined a std_type, however, using this function you can only '
                           'create a pipe setting specific, individual parameters. If you want to '
                           'create a pipe from net.std_types, please use `create_pipe`')
+    new_geodata = _branch_geodata_frame(net, "pipe", geodata, index) if geodata is not None else None
     _set_multiple_entries(net, "pipe", index, **entries, **kwargs)
 
-    if geodata is not None:
-        _add_multiple_branch_geodata(net, "pipe", geodata, index)
+    if new_geodata is not None:
+        _append_branch_geodata(net, "pipe", new_geodata)
     return index
 
 
@@ -2045,8 +2050,20 @@ def _check_std_type(net, std_type, table, function_name):
 
 
 def _add_multiple_branch_geodata(net, table, geodata, index):
+    _append_branch_geodata(net, table, _branch_geodata_frame(net, table, geodata, index))
+
+
+def _append_branch_geodata(net, table, df):
     geo_table = f"{table}_geodata"
     dtypes = net[geo_table].dtypes
+    net[geo_table] = pd.concat([net[geo_table], df], sort=False)
+
+    _preserve_dtypes(net[geo_table], dtypes)
+
+
+def _branch_geodata_frame(net, table, geodata, index):
+    # raises on malformed geodata; nothing in the net is touched
+    geo_table = f"{table}_geodata"
     df = pd.DataFrame(index=index, columns=net[geo_table].columns)
     # works with single or multiple lists of coordinates
     if len(geodata[0]) == 2 and not hasattr(geodata[0][0], "__iter__"):
@@ -2055,10 +2072,7 @@ def _add_multiple_branch_geodata(net, table, geodata, index):
     else:
         # geodata is multiple lists of coordinates
         df["coords"] = geodata
-
-    net[geo_table] = pd.concat([net[geo_table],df], sort=False)
-
-    _preserve_dtypes(net[geo_table], dtypes)
+    return df
 
 
 ALLOWED_EG_TYPES = ["auto", "t", "p", "pt", "tp"]
